@@ -17,13 +17,15 @@ def dft_calls(out, name='dft'):
     return [c for c in out.cx.cache.get('opaque-calls', []) if c[0] == name]
 
 
-def spectrum_clauses(V, out, fa, freqs, x, n, dt, N, budget_ms=None):
+def spectrum_clauses(V, out, fa, freqs, x, n, dt, N, budget_ms=None, skip=0):
     """fa[k] = dt * DFT_N(zero padded x)[k] for k < floor(N/2), frequencies k/(N dt); DFT uninterpreted (one call, checked input)."""
-    calls = dft_calls(out)
+    calls = dft_calls(out)[skip:]
     out.prove('exactly-one-DFT', len(calls) == 1)
     if len(calls) != 1:
-        return
-    padded = calls[0][1][0]
+        # no (or more than one) transform for this request: state the remaining clauses against the transform of the padded record itself
+        padded = CArr.from_fn(lambda k: T.site(T.slt(k, n), A.to_carr(x).at(k), 0), (N,), 'float')
+    else:
+        padded = calls[0][1][0]
     out.prove('DFT-length-is-N', T.seq(padded.shape[0], N))
     for k in V.idx(0, N, 'kp'):
         out.prove('DFT-input-is-the-zero-padded-record', T.seq(A.to_carr(padded).at(k), T.site(T.slt(k, n), A.to_carr(x).at(k), 0)))
@@ -36,8 +38,11 @@ def spectrum_clauses(V, out, fa, freqs, x, n, dt, N, budget_ms=None):
 
 
 @unit('C06', 'Signal.gen_fa_spectrum', functions=['eqsig.single.Signal.gen_fa_spectrum', 'eqsig.single.Signal.fa_spectrum', 'eqsig.single.Signal.fa_frequencies'],
-      cases=[dict(how=h, cls=c) for h in ('default', 'p2_plus', 'n-even', 'n-odd', 'lazy') for c in ('Signal', 'AccSignal')], modes=('unbounded',), budget_ms=20000)
-def gen_fa(V, how, cls):
+      cases=[dict(how=h, cls=c, pre=p) for h in ('default', 'p2_plus', 'n-even', 'n-odd', 'lazy') for c in ('Signal', 'AccSignal')
+             for p in ('fresh', 'after-gen(n=N0)') if not (h == 'lazy' and p != 'fresh')], modes=('unbounded',), budget_ms=20000)
+def gen_fa(V, how, cls, pre):
+    """pre='after-gen(n=N0)': the object already holds the spectrum of an EARLIER explicit request with any other length N0 (every
+    reachable state of the Fourier cache); an explicit gen_fa_spectrum(...) must still produce the spectrum that was asked for."""
     st = {}
 
     def setup():
@@ -48,6 +53,10 @@ def gen_fa(V, how, cls):
         V.assume(dt > 0)
         sig = S.make_signal(V, cls, x, dt)
         st.update(n=n, x=x, dt=dt, sig=sig)
+        if pre != 'fresh':
+            N0 = V.int('N0')
+            V.assume(N0 >= 2)
+            st['N0'] = N0
         if how == 'p2_plus':
             p = V.int('p2_plus')
             V.assume(p >= 0, p <= 3)
@@ -65,14 +74,18 @@ def gen_fa(V, how, cls):
         return ((sig,), {})
 
     def op(itp, sig):
+        if pre != 'fresh':
+            itp.call(itp.get_attr(sig, 'gen_fa_spectrum'), [], dict(n=st['N0']))
+        st['skip'] = len([c for c in T.ctx().cache.get('opaque-calls', []) if c[0] == 'dft'])
         if how != 'lazy':
             itp.call(itp.get_attr(sig, 'gen_fa_spectrum'), [], st['kw'])
         return itp.get_attr(sig, 'fa_spectrum'), itp.get_attr(sig, 'fa_frequencies')
     for out in V.run(op, setup):
+        out.replay_info = dict(module='fourier', cls=cls, how=how, pre=pre)
         if not out.no_raise():
             continue
         fa, freqs = out.result
-        spectrum_clauses(V, out, fa, freqs, st['x'], st['n'], st['dt'], st['N'])
+        spectrum_clauses(V, out, fa, freqs, st['x'], st['n'], st['dt'], st['N'], skip=st['skip'])
         out.unchanged('x', st['x'])
 
 
